@@ -48,7 +48,18 @@ fn packed_lists(rg: &mut StdRng, which: usize) -> Pats {
     let pick = |rg: &mut StdRng, pool: &[u8], lo: usize, hi: usize| -> Vec<u8> {
         (0..rg.gen_range(lo..=hi)).map(|_| pool[rg.gen_range(0..pool.len())]).collect()
     };
-    match which % 8 {
+    match which % 9 {
+        // many patterns with byte-identical duplicates (ties must go to the first supplied)
+        8 => {
+            let words: Vec<Vec<u8>> = (0..rg.gen_range(7..=12)).map(|i| { let mut w = pick(rg, b"abcde", 2, 5); w.push(b'a' + i as u8); w }).collect();
+            let mut v: Pats = vec![];
+            for _ in 0..rg.gen_range(3..=4) { v.extend(words.iter().cloned()); }
+            // in random order, interleaved with a few unrelated patterns of various lengths
+            for _ in 0..rg.gen_range(0..=6) { v.push(pick(rg, b"vwxyz", 2, 9)); }
+            use rand::seq::SliceRandom;
+            v.shuffle(rg);
+            v
+        }
         0 => (0..rg.gen_range(1..=4)).map(|_| pick(rg, b"abc", 1, 5)).collect(),
         // colliding low nybbles: same bucket, different bytes
         1 => (0..rg.gen_range(2..=9)).map(|_| pick(rg, &same_lo, 1, 4)).collect(),
